@@ -170,11 +170,65 @@ pub(crate) fn walk_update(f: &[u8], addpath: &dyn Fn(u16, u8) -> bool, ext_nh: b
     };
     let mut i = 23 + wl;
     let end = 23 + wl + al;
+    let mut seen = [false; 256];
     while i + 3 <= end {
         let flags = f[i];
         let code = f[i + 1];
         let (alen, hdr) = if flags & 0x10 != 0 { (u16::from_be_bytes([f[i + 2], f[i + 3]]) as usize, 4) } else { (f[i + 2] as usize, 3) };
         let v = &f[(i + hdr).min(end)..(i + hdr + alen).min(end)];
+        // the shapes RFC 4271 / 1997 / 4360 / 4456 / 6793 / 8092 fix for the attributes every
+        // implementation knows: category flags, lengths, the ORIGIN code points, AS_PATH segments
+        if std::mem::replace(&mut seen[code as usize], true) {
+            return Err(format!("attribute {} appears twice", code));
+        }
+        let want_flags: Option<u8> = match code {
+            1 | 2 | 3 | 5 | 6 => Some(0x40),
+            4 | 9 | 10 | 14 | 15 => Some(0x80),
+            7 | 8 | 16 | 17 | 18 | 32 => Some(0xc0),
+            _ => None,
+        };
+        if let Some(w) = want_flags {
+            if flags & 0xc0 != w {
+                return Err(format!("attribute {}: flags {:#04x}, its category is {:#04x}", code, flags, w));
+            }
+            if w != 0xc0 && flags & 0x20 != 0 {
+                return Err(format!("attribute {}: Partial bit on an attribute that is not optional transitive", code));
+            }
+        }
+        let len_ok = match code {
+            1 => v.len() == 1,
+            3 | 4 | 5 | 9 => v.len() == 4,
+            6 => v.is_empty(),
+            7 => v.len() == 6 || v.len() == 8,
+            8 | 10 => v.len() % 4 == 0,
+            16 => v.len() % 8 == 0,
+            18 => v.len() == 8,
+            32 => v.len() % 12 == 0,
+            _ => true,
+        };
+        if !len_ok {
+            return Err(format!("attribute {}: length {}", code, v.len()));
+        }
+        if code == 1 && v[0] > 2 {
+            return Err(format!("ORIGIN {}", v[0]));
+        }
+        if code == 2 || code == 17 {
+            // segments of (type 1-4, count >= 1, count AS numbers) that tile the value, with four-octet
+            // or (AS_PATH towards an old speaker only) two-octet AS numbers
+            let tiles = |w: usize| -> bool {
+                let mut k = 0;
+                while k < v.len() {
+                    if k + 2 > v.len() || !(1..=4).contains(&v[k]) || v[k + 1] == 0 {
+                        return false;
+                    }
+                    k += 2 + v[k + 1] as usize * w;
+                }
+                k == v.len()
+            };
+            if !(tiles(4) || (code == 2 && tiles(2))) {
+                return Err(format!("attribute {}: segments do not tile the value ({} octets)", code, v.len()));
+            }
+        }
         match code {
             14 => {
                 if v.len() < 5 {
